@@ -243,6 +243,9 @@ func c06concScenarios(r *ev.Run) []conc.Scenario {
 		for _, be := range kv.Backends {
 			pl, be := pl, be
 			b := bound
+			if len(pl.Read) > 0 && b > 2 {
+				b = 2 // three threads
+			}
 			scs = append(scs, conc.Scenario{
 				Name:  fmt.Sprintf("c06 %s [%s] then %s", be, historyString(pl.Prefix), pl.Name),
 				Key:   fmt.Sprintf("c06 %s %s", be, pl.Name),
@@ -418,7 +421,7 @@ func runC06Conc(r *ev.Run) {
 		b = 3
 	}
 	r.Set("conc_preemption_bound", b)
-	r.Set("conc_rule", "concurrent readers against committer / finalizer / pruner: after a sequential prefix history, 2-3 controlled threads run on the real node database (badger and pathbadger): writer threads execute letters (commit of competing candidates, finalize discarding one, prune of one or two versions; committer and pruner as separate threads), reader threads read finalized roots that stay retained (HasRoot, full iteration, gets, verified proofs) and must see exactly the reference contents; every schedule with at most conc_preemption_bound preemptions (thorough: one more preemption is explored for the rest of a 12-minute budget, reported as conc_extra_*) at the database's locks, reads and durable writes is executed; afterwards the sequential read-back oracle is applied to the final state")
+	r.Set("conc_rule", "concurrent readers against committer / finalizer / pruner: after a sequential prefix history, 2-3 controlled threads run on the real node database (badger and pathbadger): writer threads execute letters (commit of competing candidates, finalize discarding one, prune of one or two versions; committer and pruner as separate threads), reader threads read finalized roots that stay retained (HasRoot, full iteration, gets, verified proofs) and must see exactly the reference contents; every schedule with at most conc_preemption_bound preemptions (thorough: 3 for two threads, 2 for three threads; one more preemption each is explored for the rest of a 12-minute budget, reported as conc_extra_*) at the database's locks, reads and durable writes is executed; afterwards the sequential read-back oracle is applied to the final state")
 	r.Assume("concurrency phase: threads are preempted only at lock acquisitions of the node database and at badger reads / durable writes; a single writer's own reads are not scheduling points (they commute with the readers' reads); badger's internal goroutines run freely (they do not change logical contents)")
 	r.Finish()
 	_ = json.Marshal
